@@ -24,12 +24,11 @@ def digitValue (c : Char) : Nat :=
 
 /-- mpz_set_str (mpz/set_str.c:36-140) without the white-space allowances (the scanner stores none). -/
 def setStr (s : List Char) (base : Nat) : Option Int :=
-  let (neg, s) := match s with
-    | '-' :: t => (true, t)
-    | _ => (false, s)
-  match s with
-  | [] => none
-  | c :: _ =>
+  let neg : Bool := s.head? = some '-'
+  let s := if neg then s.tail else s
+  match s.head? with
+  | none => none
+  | some c =>
     if digitValue c ≥ (if base = 0 then 10 else base) then none else
     let (base, s) : Nat × List Char :=
       if base = 0 then
